@@ -165,7 +165,8 @@ func ListSolarFromBaZiBySectAndBaseYear(yearGanZhi string, monthGanZhi string, d
 	for y <= endYear {
 		if y >= startYear {
 			// 立春为寅月的开始
-			jieQiTable := NewLunarFromYmd(y, 1, 1).GetJieQiTable()
+			// 取公历y年的节气表（建子、建丑的年代，农历正月初一可能落在公历上一年，不能用农历y年正月初一来取）
+			jieQiTable := NewSolarFromYmd(y, 6, 1).GetLunar().GetJieQiTable()
 			// 节令推移，年干支和月干支就都匹配上了
 			solarTime := jieQiTable[JIE_QI_IN_USE[4+m]]
 			if solarTime.GetYear() >= baseYear {
